@@ -142,6 +142,76 @@ def replay_h_dtypes_nullable(r0, r1, k0, k1, s0, s1, o0, o1, so, pandas_nulls):
         shutil.rmtree(d, ignore_errors=True)
 
 
+# ------------------------------------------------------------------ slices / copies predict what the parent does ---
+def h_slice_dtypes(k0: int, k1: int, s0: int, s1: int, item: int, via_state: bool, pandas_nulls: bool,
+                   given: bool) -> bool:
+    """
+    pre: 0 <= k0 <= 5 and 0 <= k1 <= 5 and 0 <= s0 <= 2 and 0 <= s1 <= 2 and 0 <= item <= 2
+    post: __return__
+    """
+    # a handle derived from another - pf[0], pf[1], pf[0:2], also after a trip through __getstate__/__setstate__ (what
+    # pickle, copy and dask do with it) - predicts the dtypes its parent predicts: a partial read then has the dtypes
+    # of the full read, wherever the NULLs are, and a dtypes= override given when the file was opened stays in force
+    pf = _handle([_rg(5, s0, k0, 2, 0), _rg(5, s1, k1, 2, 0)], pandas_nulls)
+    pf.fn, pf.open = "x", None
+    if given:
+        pf._base_dtype = {"f": np.dtype("float32"), "a": np.dtype("float64")}     # ParquetFile(fn, dtypes=...)
+    pf._dtypes()
+    parent = [(c, str(t)) for c, t in pf.dtypes.items()]
+    sub = pf[[0, 1, slice(0, 2)][item]]
+    if via_state:
+        state = sub.__getstate__()
+        sub = object.__new__(api.ParquetFile)
+        sub.__setstate__(state)
+    if [(c, str(t)) for c, t in sub.dtypes.items()] != parent or sub.pandas_nulls != pandas_nulls:
+        return False
+    # ... and can allocate what it predicts (the first step of every read)
+    saved = api.dataframe
+    api.dataframe = _DFMod
+    try:
+        sub.pre_allocate(5, ["f", "a"], None, None)
+    finally:
+        api.dataframe = saved
+    r = REC[0]
+    return r["cols"] == ["f", "a"] and [str(t) for t in r["types"]] == [t for c, t in parent]
+
+
+def replay_h_slice_dtypes(k0, k1, s0, s1, item, via_state, pandas_nulls, given):
+    """a two-row-group file built from the specification (INT64 dictionary column, NULLs where the witness has them,
+    statistics in the witness's state): dtypes announced by the handle vs dtypes of reads through the derived handle"""
+    import pickle, shutil, tempfile
+    import fastparquet
+    from vf.pyshim import flat_file
+    d = tempfile.mkdtemp(prefix="c17-")
+    try:
+        fns = []
+        for i, (k, s) in enumerate(((k0, s0), (k1, s1))):
+            nulls = [j < k for j in range(5)]
+            fn = os.path.join(d, "p%d.parq" % i)
+            flat_file.build_dict(fn, [10, 20, 30], [j % 3 for j in range(5 - k)], 2, nulls=nulls, optional=True,
+                                 stats_null_count={0: "absent", 1: None, 2: k}[s])
+            fns.append(fn)
+        kw = dict(dtypes={"x": np.dtype("float64")}) if given else {}
+        pf = fastparquet.ParquetFile(fns, pandas_nulls=pandas_nulls, **kw)
+        parent = str(pf.dtypes["x"])
+        sub = pf[[0, 1, slice(0, 2)][item]]
+        if via_state:
+            sub = pickle.loads(pickle.dumps(sub))
+        if str(sub.dtypes["x"]) != parent:
+            return True, "handle predicts %s for column x, the handle derived from it (%s%s) predicts %s" % (
+                parent, ["pf[0]", "pf[1]", "pf[0:2]"][item], ", pickled" if via_state else "", sub.dtypes["x"])
+        try:
+            got = str(sub.to_pandas()["x"].dtype)
+        except Exception as ex:
+            return True, "reading through the derived handle fails: %s: %s" % (type(ex).__name__, str(ex)[:80])
+        if got != parent:
+            return True, "handle predicts %s for column x, a read through %s%s gives %s" % (
+                parent, ["pf[0]", "pf[1]", "pf[0:2]"][item], " (pickled)" if via_state else "", got)
+        return False, "derived handle agrees with its parent"
+    finally:
+        shutil.rmtree(d, ignore_errors=True)
+
+
 # ------------------------------------------------------------------ allocation request == prediction ---
 REC = [None]
 
